@@ -48,7 +48,7 @@ Lemma isometry m k (P : nat -> nat -> R) (x y : nat -> R) : orthonormal_cols m k
 Proof.
   intros H.
   rewrite (rsum_ext m _ (fun j => rsum k (fun l => rsum k (fun l' => (x l * y l') * (P j l * P j l'))))).
-  2:{ intros j _. rewrite <- rsum_scale. apply rsum_ext; intros l _.
+  2:{ intros j _. rewrite Rmult_comm. rewrite <- rsum_scale. apply rsum_ext; intros l _.
       rewrite Rmult_comm. rewrite <- rsum_scale. apply rsum_ext; intros l' _. ring. }
   rewrite rsum_exchange.
   apply rsum_ext; intros l Hl.
